@@ -2,6 +2,7 @@ package c04
 
 import (
 	"fmt"
+	"net"
 	"strings"
 	"testing"
 	"time"
@@ -173,7 +174,7 @@ func TestTCP(t *testing.T) {
 		return
 	}
 	r.Rule("TCP: command sequences from per-protocol grammars (ftp, smtp incl. DATA/BDAT, redis, memcached, telnet, http keep-alive, elasticsearch, eos, ethereum, docker, cwmp, ldap) delivered through the real server on the in-memory listener as a single write (pipelined), lock-step, k random cuts and 1-byte dribble; oracle = expected event list computed from the generated command list (reference) AND equality with the single-write event list (metamorphic); non-trivial = >=2 commands and (a cut or >=2 requests in one write); distinct by wire bytes + delivery")
-	r.Rapid(t, "TestTCP", r.Pick(600, 12000), func(rt *rapid.T) {
+	r.Rapid(t, "TestTCP", r.Pick(450, 12000), func(rt *rapid.T) {
 		service := rapid.SampledFrom(svc.TCPServices).Draw(rt, "service")
 		d := svc.GenTCP(rt, service)
 		mode := rapid.SampledFrom([]string{"single", "lockstep", "cuts", "cuts", "dribble"}).Draw(rt, "mode")
@@ -317,4 +318,156 @@ func TestUDP(t *testing.T) {
 // knownExclusions: shapes of recorded-not-repaired findings, excluded by construction.
 func knownExclusions(r *vlib.Run, c dialogCase) []string {
 	return nil
+}
+
+// ---------------------------------------------------------------- UDP through the real socket listener
+
+type sockCase struct {
+	Service string   `json:"service"`
+	Dgrams  []cmdRec `json:"datagrams"`
+}
+
+var (
+	sockInst  *lab.Server
+	sockCap   *lab.Capture
+	sockPorts = map[string]int{}
+	sockErr   error
+	sockOnce  bool
+)
+
+func sockServer() error {
+	if sockOnce {
+		return sockErr
+	}
+	sockOnce = true
+	id := lab.NextID()
+	var b strings.Builder
+	fmt.Fprintf(&b, "[listener]\ntype=\"socket\"\n\n[channel.cap]\ntype=\"verif-capture\"\nid=%q\n\n[[filter]]\nchannel=[\"cap\"]\n\n", id+"-cap")
+	for _, s := range svc.UDPServices {
+		var port int
+		for try := 0; try < 50; try++ {
+			l, err := net.ListenPacket("udp", "127.0.0.1:0")
+			if err != nil {
+				sockErr = err
+				return err
+			}
+			port = l.LocalAddr().(*net.UDPAddr).Port
+			l.Close()
+			if port > 20000 {
+				break
+			}
+		}
+		sockPorts[s] = port
+		fmt.Fprintf(&b, "[service.%s]\ntype=%q\n\n[[port]]\nport=\"udp/127.0.0.1:%d\"\nservices=[%q]\n\n", s, s, port, s)
+	}
+	sockInst, sockErr = lab.StartSocket(id, b.String())
+	if sockErr == nil {
+		sockCap = lab.GetCapture(id + "-cap")
+		if sockCap == nil {
+			sockErr = fmt.Errorf("capture channel missing")
+		}
+	}
+	return sockErr
+}
+
+var sockSerial int
+
+func checkSocketBurst(c sockCase) error {
+	if err := sockServer(); err != nil {
+		return fmt.Errorf("infra: %v", err)
+	}
+	var last error
+	for attempt := 0; attempt < 3; attempt++ {
+		last = socketBurstOnce(c)
+		if last == nil || !strings.HasPrefix(last.Error(), "missing:") {
+			return last
+		}
+	}
+	return fmt.Errorf("%s (in 3 of 3 attempts)", strings.TrimPrefix(last.Error(), "missing:"))
+}
+
+func socketBurstOnce(c sockCase) error {
+	mark := sockCap.Len()
+	type sent struct {
+		conn *net.UDPConn
+		ip   string
+		port int
+	}
+	var socks []sent
+	defer func() {
+		for _, s := range socks {
+			s.conn.Close()
+		}
+	}()
+	dst := &net.UDPAddr{IP: net.IPv4(127, 0, 0, 1), Port: sockPorts[c.Service]}
+	for range c.Dgrams {
+		// every datagram from its own loopback source address (127.x.y.z): the rate limiters
+		// count per source IP and are a property of their own (C10)
+		sockSerial++
+		src := net.IPv4(127, byte(1+(sockSerial>>16)&0x7f), byte(sockSerial>>8), byte(sockSerial))
+		uc, err := net.DialUDP("udp", &net.UDPAddr{IP: src}, dst)
+		if err != nil {
+			return fmt.Errorf("infra: %v", err)
+		}
+		socks = append(socks, sent{uc, src.String(), uc.LocalAddr().(*net.UDPAddr).Port})
+	}
+	// back to back
+	for i, d := range c.Dgrams {
+		socks[i].conn.Write(vlib.UnHex(d.Wire))
+	}
+	want := 0
+	for _, d := range c.Dgrams {
+		want += len(d.Exp)
+	}
+	sockCap.WaitFor(4*time.Second, func(all []lab.Ev) bool {
+		n := 0
+		for _, e := range all[mark:] {
+			if svc.Track(c.Service, e) {
+				n++
+			}
+		}
+		return n >= want
+	})
+	time.Sleep(5 * time.Millisecond)
+	evs := sockCap.Events()[mark:]
+	for i, d := range c.Dgrams {
+		mine := tracked(c.Service, lab.From(evs, socks[i].ip, socks[i].port))
+		if len(mine) < len(d.Exp) {
+			return fmt.Errorf("missing:datagram %d (%s) from source port %d: %d events, %d expected", i, d.Name, socks[i].port, len(mine), len(d.Exp))
+		}
+		if err := svc.Compare(d.Exp, mine); err != nil {
+			return fmt.Errorf("datagram %d of a back-to-back burst of %d (%s via the socket listener): %v", i, len(c.Dgrams), c.Service, err)
+		}
+	}
+	return nil
+}
+
+func TestUDPSocketBurst(t *testing.T) {
+	r := vlib.Open(prop)
+	var sc sockCase
+	if vlib.ReplayCase("TestUDPSocketBurst", &sc) {
+		if err := checkSocketBurst(sc); err != nil {
+			r.Violation(t, "TestUDPSocketBurst", sc, err.Error())
+		}
+		return
+	}
+	r.Rule("UDP through the REAL socket listener on loopback: bursts of 2..24 distinct grammar datagrams sent back to back from distinct source ports; oracle = each datagram's own decoded fields in the events of its source port (a datagram whose events never show is re-measured twice)")
+	r.Rapid(t, "TestUDPSocketBurst", r.Pick(60, 1500), func(rt *rapid.T) {
+		service := rapid.SampledFrom(svc.UDPServices).Draw(rt, "service")
+		c := sockCase{Service: service}
+		n := rapid.IntRange(2, 24).Draw(rt, "burst")
+		for len(c.Dgrams) < n {
+			d := svc.GenUDP(rt, service)
+			for _, x := range d.Cmds {
+				c.Dgrams = append(c.Dgrams, cmdRec{x.Name, vlib.Hex(x.Wire), x.Exp, false})
+			}
+		}
+		r.Case("udp-socket-burst/"+service, vlib.JSON(c), func() interface{} { return map[string]interface{}{"service": service, "datagrams": len(c.Dgrams)} })
+		if err := checkSocketBurst(c); err != nil {
+			if strings.HasPrefix(err.Error(), "infra:") {
+				rt.Fatalf("%v", err)
+			}
+			r.Fail(rt, "TestUDPSocketBurst", c, "%v", err)
+		}
+	})
 }
